@@ -165,7 +165,7 @@ def p_filter(rnd, world, methods=("median", "bilateral")):
         if rnd.random() < 0.9:
             p["sigma_space"] = rnd.choice([0.4, 0.7, 1.0, 1.3, 2.0, 3.0])
         if rnd.random() < 0.8:
-            p["sigma_color"] = rnd.choice([0.5, 1.0, 2.0, 5.0])
+            p["sigma_color"] = rnd.choice([0.5, 1.0, 2.0, 5.0, 0.05])
     elif m == "median_for_intervals":
         if rnd.random() < 0.8:
             p["filter_size"] = rnd.choice([1, 3, 3, 5])
@@ -211,7 +211,8 @@ PARAMS = {
     "multiscale": p_multiscale,
 }
 
-SUFFIXES = ["1", "2", "a", "b", "x", "amb", "r", "a.b", "a.b.c", "0", "left"]
+SUFFIXES = ["1", "2", "a", "b", "x", "amb", "r", "a.b", "a.b.c", "0", "left", "refinement", "filter", "validation",
+            "disparity"]
 
 
 def name_steps(rnd, kinds, suffix_only_p=0.0, allow_multi_dot=False):
